@@ -162,6 +162,18 @@ func setup() {
 		short3, _ := build.JPEG{Segs: []build.Seg{{Marker: 0xC0, Data: build.SOF(8, 480, 640, [][3]byte{{1, 0x11, 0}})}, {Marker: 0xC0, Data: make([]byte, n)}}, SOS: []byte{1, 1, 0, 0, 63, 0}}.Bytes()
 		damaged = append(damaged, short, short2, short3)
 	}
+	// a PNG whose iCCP chunk declares a gigabyte and delivers 256 KiB before the input ends: whatever a load reserves
+	// or counts on the strength of a declared length is held while those bytes are read, and other loads run meanwhile
+	{
+		big := append([]byte(nil), build.PNGSig...)
+		big = append(big, 0, 0, 0, 13, 'I', 'H', 'D', 'R', 0, 0, 0, 9, 0, 0, 0, 7, 8, 2, 0, 0, 0, 0x11, 0x22, 0x33, 0x44)
+		big = append(big, 0x40, 0, 0, 0, 'i', 'C', 'C', 'P', 'p', 0, 0, 0x78, 0x9c)
+		junk := make([]byte, 256<<10)
+		for i := range junk {
+			junk[i] = byte(i*131 + i>>7)
+		}
+		damaged = append(damaged, append(big, junk...))
+	}
 	bp, _ := build.PNG{W: 3, H: 3, Depth: 8, ColorType: 2, Pre: []build.Chunk{build.RawICCPChunk("toolong-name-without-terminator-................................................................", []byte{1})}, IDAT: []byte{1}}.Bytes()
 	damaged = append(damaged, bp, []byte("\x89PNG\r\n\x1a\n\x00\x00\x00\x0dIHDX"), []byte("RIFF\x04\x00\x00\x00WEBX"))
 }
